@@ -190,7 +190,7 @@ Lemma read_region_area_nonempty v a : read_region_area v = Ok a -> v <> YMap [] 
 Proof.
   unfold read_region_area. destruct (as_number v).
   - intros H _. inv_bind H. inversion H. discriminate.
-  - destruct v as [| | | |d]; try discriminate. intros H Hv. inv_bind H.
+  - destruct v as [| | | |d|]; try discriminate. intros H Hv. inv_bind H.
     apply read_area_dict_length in H. destruct d; [congruence|]. destruct a; [discriminate|discriminate].
 Qed.
 
@@ -315,7 +315,7 @@ Lemma parse_rectangle_geom f hd t r g :
   parse_rectangle f hd t = Ok r -> doc_rect t = Some g ->
   cx (to_rect r) = cx g /\ cy (to_rect r) = cy g /\ rw (to_rect r) = rw g /\ rh (to_rect r) = rh g.
 Proof.
-  destruct t as [| | |l|]; try discriminate. cbn [parse_rectangle doc_rect].
+  destruct t as [| | |l| |]; try discriminate. cbn [parse_rectangle doc_rect].
   destruct l as [|x [|y [|w [|h [|e [|e' tl]]]]]]; try discriminate; intros H; do 4 inv_bind H;
     apply rect_num_ok in E, E0, E1, E2; rewrite E, E0, E1, E2; intros Hg; inversion Hg; subst; clear Hg.
   - unfold finish_rectangle in H. do 3 inv_bind H. inversion H; subst. cbn. auto.
